@@ -901,6 +901,23 @@ func ruleMirrorGuards(c *Ctx, rule string) {
 		}
 	}
 	if n < 1 {
+		// the mirror may be written through a helper's result (mbox := c.forUpdate(); mbox.X = …)
+		stores := 0
+		for _, fn := range p.SrcFuncs("imapclient") {
+			allInstrs(fn, func(i ssa.Instruction) {
+				if st, ok := i.(*ssa.Store); ok {
+					if r, ok := fieldOf(st.Addr); ok && r.Owner != nil && r.Owner.Obj().Name() == "SelectedMailbox" && !isFreshLocal(r.Base) {
+						if _, viaCopy := r.Base.(*ssa.Call); viaCopy {
+							stores++
+						}
+					}
+				}
+			})
+		}
+		if stores > 0 {
+			c.okTrivial(rule, "mirror statements go through a helper's result", token.NoPos, fmt.Sprintf("%d stores; their guards are not of the evaluable form c.mailbox.X = … (reduced coverage, no verdict)", stores))
+			return
+		}
 		c.unresolvedRoot("mirror statements on Client.mailbox")
 	}
 }
